@@ -32,19 +32,30 @@
 (* such a pass; without a ceiling (Capped = FALSE, the tree before fixes/C18-pls-lvcalc-iteration-cap.diff)    *)
 (* a fair behaviour can take MCycle for ever - TLC returns the lasso; with the ceiling at most CapIter of     *)
 (* them happen per latent variable, then MCapExit stores the component (beyond the rank: only finiteness is   *)
-(* claimed for it).                                                                                       *)
+(* claimed for it).  The residue iteration has a second way of not contracting (seeded change C18-adv4, 5x3 X of  *)
+(* rank 2 with three integer responses): a 2-cycle t_a -> t_b -> t_a whose convergence value ALTERNATES between  *)
+(* two different numbers (7.43e-05 / 7.57e-05).  IterCycle2 is such a pass; `cphase` says whether the value just  *)
+(* went down.  CapRule distinguishes the two ceilings a maintainer may write: "passes" counts every pass of the   *)
+(* cycle, "stall" counts only the passes that bring no smaller value (and starts again after every one that     *)
+(* does): under "stall" every second pass of the alternating cycle refills the counter, CapExit is never        *)
+(* enabled and a fair behaviour takes MCycle2 for ever - TLC returns the lasso; the constant-value cycle still   *)
+(* stops under both rules.                                                                                 *)
 (*                                                                                                       *)
 (* Theorems checked by TLC (c18.py):                                                                      *)
 (*   both filters, ceiling       : Terminates, BeyondRankZero, NprocInvisible hold for every nproc          *)
 (*   FilterMT = FALSE, nproc = 1 : everything still holds  (why a check that forces one processor is blind)  *)
 (*   FilterMT = FALSE, nproc > 1 : BeyondRankZero is violated by CPCA with a constant block                  *)
 (*   Capped = FALSE              : Terminates is violated by PLS (lasso through MCycle)                      *)
+(*   CapRule = "stall"           : Terminates is violated by PLS (lasso through MCycle2); "passes": it holds    *)
 EXTENDS Nipals
 CONSTANTS NProcs, FilterSerial, FilterMT,
           Capped,      \* LVCalc leaves its loop after a fixed number of passes (PLSMAXITER)
-          CapIter      \* that number, in the model a small one
-VARIABLES nproc, capleft
-mvars == <<vars, nproc, capleft>>
+          CapIter,     \* that number, in the model a small one (>= 2)
+          CapRule      \* what the ceiling counts: "passes" (every pass) | "stall" (passes whose convergence value is not below the previous one)
+VARIABLES nproc, capleft,
+          cphase       \* 2-cycle with alternating convergence values: 1 iff the value of the last pass was the smaller of the two
+mvars == <<vars, nproc, capleft, cphase>>
+ASSUME CapRule \in {"passes", "stall"} /\ CapIter >= 2
 
 Filtered == IF nproc = 1 THEN FilterSerial ELSE FilterMT
 \* the next pass multiplies a block with a 0/0 loading vector and the kernel it reaches keeps the NaN products
@@ -58,21 +69,30 @@ CycleNow == site = "PLS" /\ phase = "iter" /\ tcls = "Fin" /\ pc >= rank /\ nois
 IterCycle == /\ CycleNow /\ (Capped => capleft > 0)
              /\ a' = "Fin" /\ b' = "Fin" /\ conv' = "Big" /\ tick' = 1 - tick
              /\ UNCHANGED <<site, rank, npc, noise, cblk, pc, phase, tcls, first, left, evals, bvar>>
+\* ... or run through two vectors in turn, with two different convergence values
+IterCycle2 == /\ CycleNow /\ (Capped => capleft > 0)
+              /\ a' = "Fin" /\ b' = "Fin" /\ conv' = "Big" /\ tick' = 1 - tick
+              /\ UNCHANGED <<site, rank, npc, noise, cblk, pc, phase, tcls, first, left, evals, bvar>>
 CapExit == /\ Capped /\ CycleNow /\ capleft = 0
            /\ Store("zero")
            /\ UNCHANGED <<site, rank, npc, noise, cblk, tcls, first, a, b, conv, left, tick, bvar>>
 
-MInit == Init /\ nproc \in NProcs /\ capleft = CapIter
-MRegular == ~PoisonNow /\ Next /\ UNCHANGED nproc /\ capleft' = (IF pc' # pc THEN CapIter ELSE capleft)
-MPoison == IterPoison /\ UNCHANGED <<nproc, capleft>>
-MCycle == IterCycle /\ UNCHANGED nproc /\ capleft' = (IF Capped THEN capleft - 1 ELSE capleft)
-MCapExit == CapExit /\ UNCHANGED nproc /\ capleft' = CapIter
-MNext == MRegular \/ MPoison \/ MCycle \/ MCapExit
+MInit == Init /\ nproc \in NProcs /\ capleft = CapIter /\ cphase = 0
+MRegular == /\ ~PoisonNow /\ Next /\ UNCHANGED nproc
+            /\ capleft' = (IF pc' # pc THEN CapIter ELSE capleft) /\ cphase' = (IF pc' # pc THEN 0 ELSE cphase)
+MPoison == IterPoison /\ UNCHANGED <<nproc, capleft, cphase>>
+\* constant convergence value: never smaller than the previous one - both rules count the pass
+MCycle == IterCycle /\ UNCHANGED <<nproc, cphase>> /\ capleft' = (IF Capped THEN capleft - 1 ELSE capleft)
+\* alternating values: the pass that brings the smaller value is "progress" for the stall rule, which starts counting again
+MCycle2 == /\ IterCycle2 /\ UNCHANGED nproc /\ cphase' = 1 - cphase
+           /\ capleft' = (IF ~Capped THEN capleft ELSE IF CapRule = "stall" /\ cphase' = 1 THEN CapIter ELSE capleft - 1)
+MCapExit == CapExit /\ UNCHANGED nproc /\ capleft' = CapIter /\ cphase' = 0
+MNext == MRegular \/ MPoison \/ MCycle \/ MCycle2 \/ MCapExit
 MSpec == MInit /\ [][MNext]_mvars
 MFairSpec == MSpec /\ WF_mvars(MNext)
 
 \* the processor count is invisible in the result: whatever nproc, a finished fit has the components the rank dictates
 NprocInvisible == (phase = "done" /\ site \in NipalsSites) =>
                      \A i \in 1..npc : evals[i] = (IF i <= rank THEN "pos" ELSE "zero")
-MTypeOK == TypeOK /\ nproc \in NProcs /\ capleft \in 0..CapIter
+MTypeOK == TypeOK /\ nproc \in NProcs /\ capleft \in 0..CapIter /\ cphase \in {0, 1}
 ====
